@@ -627,7 +627,9 @@ var gCollected = map[types.Type]bool{}
 //kvc:ghost collectImportsFromType@reach before "switch typ := t.(type)"
 func ghostCollected(t types.Type) { gCollected[t] = true }
 
-func foreignPackage(o *types.TypeName, pkg string) bool { return o.Pkg() != nil && o.Pkg().Path() != pkg }
+func foreignPackage(o *types.TypeName, pkg string) bool {
+	return o.Pkg() != nil && o.Pkg().Path() != pkg
+}
 
 // referencedIfForeign: a named / alias type declared in another package has that package in the referenced set
 func referencedIfForeign(t types.Type, pkg string, referencedImports map[string]*Import) bool {
